@@ -254,6 +254,18 @@ def u_Number(I):
     return {'inputs': {}}
 
 
+def u_EOS(I):
+    ctx = I.ctx
+    o, stream, sidx0 = mk_state(I)
+    install_state_contracts(I, o, stream)
+    cls = source.module(PARSER).classes['EOS']
+    p = Obj(cls, {}, 'param')
+    out = run_target(I, PARSER, 'EOS.__call__', [o, []], self_obj=p)
+    check_outcome(I, out, raises={'RINGSyntaxError': sidx0 < z3.Length(stream)}, returns=lambda r: [
+        ('end-of-input succeeds only when every character has been consumed', sidx0 == z3.Length(stream))])
+    return {'inputs': {}}
+
+
 def lit_unit(clsname):
     def run(I):
         ctx = I.ctx
@@ -528,7 +540,11 @@ def standin_read(tier, seed):
               'fragment a{ C labeled c1 C labeled c2 single bond to c1 ringbond c2 double bond to c1 }',
               'fragment a{ C labeled AtomLabel C labeled AtomLabel single bond to AtomLabel }',
               'fragment a{ C labeled c1 {connected to group G} }', 'fragment a{ C labeled c1 } garbage',
-              'rule r{ reactant a{ C labeled c1 } constraints{ a is cyclic } break bond (c1, c1) }'}
+              'rule r{ reactant a{ C labeled c1 } constraints{ a is cyclic } break bond (c1, c1) }',
+              'fragment a{ C labeled c1 C labeled c2 single bond to c2 }', 'fragment a{ C labeled c1 C labeled c2 double bond to c2 {connected to C} }',
+              'rule r{reactant r1{C labeled c1 C labeled c2 single bond to c1} modify atomtype (c1, C)}',
+              'rule r{reactant r1{C labeled c1 C labeled c2 single bond to c1} modify atomtype (c1, C.) modify atomtype (c2, C.) break bond (c1, c2)}',
+              'fragment a{ C labeled c1 }\rgarbage', 'fragment a{ C labeled c1 }\x0cgarbage !!', 'fragment a{ C labeled c1 }\xa0x', 'fragment a{ C labeled c1 }\u2028{{{'}
     counts, viol, seen, samples = {}, [], set(), []
     for t in sorted(texts):
         kind, detail = classify(t)
@@ -556,6 +572,7 @@ UNITS = [
     Unit('String.__call__', (PARSER, 'String.__call__'), u_String, replay_String),
     Unit('Digit.__call__', (PARSER, 'Digit.__call__'), u_Digit, replay_Digit),
     Unit('Number.__call__', (PARSER, 'Number.__call__'), u_Number, replay_Digit),
+    Unit('EOS.__call__', (PARSER, 'EOS.__call__'), u_EOS),
     Unit('Literal.__call__', (PARSER, 'Literal.__call__'), lit_unit('Literal')),
     Unit('Filler.__call__', (PARSER, 'Filler.__call__'), lit_unit('Filler')),
 ]
